@@ -35,6 +35,23 @@ Definition t4 (x : q4) : str := snd x.
 Definition pw (x : q4) : str * hval * str := (k4 x, w4 x, t4 x).
 Definition pr (x : q4) : str * hval * str := (k4 x, r4 x, t4 x).
 
+(* metadata items (k, w, r, t), columns, nested grids over a triple relation P *)
+Definition cq := (str * list q4)%type.
+Definition colw (c : cq) : str * list (str * hval * str) := (fst c, map pw (snd c)).
+Definition colr (c : cq) : str * list (str * hval * str) := (fst c, map pr (snd c)).
+Definition mq_of (P : hval -> hval -> str -> Prop) (q : q4) : Prop :=
+  colname (k4 q) /\ ((w4 q = VMarker /\ r4 q = VMarker) \/ P (w4 q) (r4 q) (t4 q)).
+Definition cq_of (P : hval -> hval -> str -> Prop) (c : cq) : Prop :=
+  colname (fst c) /\ Forall (mq_of P) (snd c) /\ NoDup (map k4 (snd c)).
+Definition grid2_of (P : hval -> hval -> str -> Prop) (w r : hval) (t : str) : Prop :=
+  exists (mq : list q4) (cs : list cq) (rows : list (list (hval * hval * str))),
+    w = meta_grid (map pw mq) (map colw cs) (map (map w3) rows) /\
+    r = meta_grid (map pr mq) (map colr cs) (map (map r3) rows) /\
+    t = (60 :: 60 :: meta_text (map pw mq) (map colw cs) (map (map t3) rows) ++ [62; 62])%list /\
+    Forall (mq_of P) mq /\ NoDup (map k4 mq) /\ ~ In VERK (map k4 mq) /\
+    cs <> [] /\ Forall (cq_of P) cs /\ NoDup (map fst cs) /\
+    Forall (fun cells => length cells = length cs /\ Forall (fun x => P (w3 x) (r3 x) (t3 x)) cells) rows.
+
 Fixpoint wrv (n : nat) (w r : hval) (t : str) : Prop :=
   match n with
   | O => (w = r /\ zv 0 w t) \/ dtt w r t
@@ -44,6 +61,7 @@ Fixpoint wrv (n : nat) (w r : hval) (t : str) : Prop :=
             \/ (exists l : list q4, w = VDict (map pkv (map pw l)) /\ r = VDict (map pkv (map pr l)) /\
                   t = (123 :: body_text (map pw l) ++ [125])%list /\ NoDup (map k4 l) /\
                   Forall (fun x => colname (k4 x) /\ wrv n' (w4 x) (r4 x) (t4 x)) l)
+            \/ grid2_of (wrv n') w r t
   end.
 
 Lemma body_text_pw_pr l : body_text (map pw l) = body_text (map pr l).
@@ -57,11 +75,81 @@ Proof. induction l as [|x l IH]; [reflexivity|]. cbn [map pw pkv fst]. rewrite I
 Lemma keys_pr l : map fst (map pkv (map pr l)) = map k4 l.
 Proof. induction l as [|x l IH]; [reflexivity|]. cbn [map pr pkv fst]. rewrite IH. reflexivity. Qed.
 
+(* the tag text of an item does not depend on the side: both values are markers or neither is *)
+Definition meq (q : q4) : Prop := mtext (pw q) = mtext (pr q).
+Lemma wrv_mtext n k w r t : wrv n w r t -> mtext (k, w, t) = mtext (k, r, t).
+Proof.
+  intro H. destruct n as [|n]; cbn [wrv] in H.
+  - destruct H as [[E _]|[y [m [d [h [mi [s [us [off [zn [sg [hh [mm [_ [_ [_ [Ew [Er _]]]]]]]]]]]]]]]]]]; subst; reflexivity.
+  - destruct H as [[E _]|[[y [m [d [h [mi [s [us [off [zn [sg [hh [mm [_ [_ [_ [Ew [Er _]]]]]]]]]]]]]]]]]|[[l [Ew [Er _]]]|[[l [Ew [Er _]]]|[mq [cs [rows [Ew [Er _]]]]]]]]]; subst; reflexivity.
+Qed.
+Lemma mq_meq n q : mq_of (wrv n) q -> meq q.
+Proof. destruct q as [[[k w] r] t]. unfold mq_of, meq, pw, pr, k4, w4, r4, t4. cbn [fst snd]. intros [_ [[Ew Er]|H]]; [subst; reflexivity|exact (wrv_mtext n k w r t H)]. Qed.
+
+Lemma mmore_eq l : Forall meq l -> mmore (map pw l) = mmore (map pr l).
+Proof. induction 1 as [|q l Hq _ IH]; [reflexivity|]. cbn [map mmore concat]. fold (mmore (map pw l)). fold (mmore (map pr l)). unfold meq in Hq. rewrite IH, Hq. reflexivity. Qed.
+Lemma mpart_eq l : Forall meq l -> mpart (map pw l) = mpart (map pr l).
+Proof.
+  intro H. destruct l as [|q l]; [reflexivity|]. inversion H as [|? ? Hq Hl]; subst. cbn [map mpart mbody]. unfold meq in Hq.
+  rewrite Hq, (mmore_eq l Hl). reflexivity.
+Qed.
+Lemma ctext_eq l : Forall (fun c : cq => Forall meq (snd c)) l -> map ctext (map colw l) = map ctext (map colr l).
+Proof.
+  induction 1 as [|c l Hc _ IH]; [reflexivity|]. cbn [map]. rewrite IH. unfold ctext, colw, colr. cbn [fst snd]. rewrite (mpart_eq (snd c) Hc). reflexivity.
+Qed.
+Lemma meta_text_eq mq cs rts : Forall meq mq -> Forall (fun c : cq => Forall meq (snd c)) cs ->
+  meta_text (map pw mq) (map colw cs) rts = meta_text (map pr mq) (map colr cs) rts.
+Proof. intros Hm Hc. unfold meta_text, htext. rewrite (mpart_eq mq Hm), (ctext_eq cs Hc). reflexivity. Qed.
+
+Lemma mkeys_pw l : mkeys (map pw l) = map k4 l. Proof. exact (keys_pw l). Qed.
+Lemma mkeys_pr l : mkeys (map pr l) = map k4 l. Proof. exact (keys_pr l). Qed.
+
+Lemma mqs_dump N f q : mq_of (wr_sem N) q -> mitem_dump (S (N + f)) (pw q).
+Proof. destruct q as [[[k w] r] t]. unfold mq_of, pw, k4, w4, r4, t4. cbn [fst snd]. intros [_ [[Ew _]|H]]; [left; exact Ew|right; exact (proj1 H f)]. Qed.
+Lemma mqs_read N g q : mq_of (wr_sem N) q -> mitem_ok (N + g) (pr q).
+Proof. destruct q as [[[k w] r] t]. unfold mq_of, pr, k4, w4, r4, t4. cbn [fst snd]. intros [Hk [[_ Er]|H]]; (split; [exact Hk|]); [left; exact Er|right; exact (proj2 H g)]. Qed.
+
+(* a grid over triples, semantically: the w side is written as the text, the text (as a nested grid) is read as the r side *)
+Lemma grid_two_sided_sem N (mq : list q4) (cs : list cq) (rows : list (list (hval * hval * str))) :
+  Forall (mq_of (wr_sem N)) mq -> Forall meq mq -> NoDup (map k4 mq) -> ~ In VERK (map k4 mq) ->
+  cs <> [] -> Forall (cq_of (wr_sem N)) cs -> Forall (fun c : cq => Forall meq (snd c)) cs -> NoDup (map fst cs) ->
+  Forall (fun cells => length cells = length cs /\ Forall (fun x => wr_sem N (w3 x) (r3 x) (t3 x)) cells) rows ->
+  (forall f, zdump_grid (S (S (N + f))) V30 (map pkv (map pw mq)) (map (fun c => (fst c, map pkv (snd c))) (map colw cs))
+                        (map (fun cells => combine (map fst (map colw cs)) cells) (map (map w3) rows))
+             = Ok (meta_text (map pw mq) (map colw cs) (map (map t3) rows))) /\
+  (forall k rest, p_scalar (S (S (S (N + k)))) true (60 :: 60 :: meta_text (map pw mq) (map colw cs) (map (map t3) rows) ++ 62 :: 62 :: rest)
+                  = Some (Ok (meta_grid (map pr mq) (map colr cs) (map (map r3) rows)), rest)).
+Proof.
+  intros Hm Em Hmn Hmv Hne Hc Ec Hcn Hrows.
+  assert (NW : map fst (map colw cs) = map fst cs) by (rewrite map_map; reflexivity).
+  assert (NR : map fst (map colr cs) = map fst cs) by (rewrite map_map; reflexivity).
+  split.
+  - intro f. apply grid_meta_dumps.
+    + clear -Hm. induction Hm as [|q l Hq _ IH]; cbn [map]; constructor; [apply mqs_dump; exact Hq|exact IH].
+    + destruct cs; [contradiction|discriminate].
+    + clear -Hc. induction Hc as [|c l [_ [Hq _]] _ IH]; cbn [map]; constructor; [|exact IH].
+      unfold col_dump_ok, colw. cbn [snd]. clear -Hq. induction Hq as [|q l Hq _ IH]; cbn [map]; constructor; [apply mqs_dump; exact Hq|exact IH].
+    + rewrite NW. exact Hcn.
+    + rewrite NW. clear -Hrows. induction Hrows as [|cells rows [Hl Hcs] _ IH]; cbn [map]; constructor; [|exact IH]. split; [rewrite !map_length; exact Hl|].
+      clear -Hcs. induction Hcs as [|x l Hx _ IH]; cbn [map]; constructor; [exact (proj1 Hx f)|exact IH].
+  - intros k rest. rewrite (meta_text_eq mq cs _ Em Ec).
+    apply (scalar_inner_grid (N + k) (map pr mq) (map colr cs) (map (map r3) rows) (map (map t3) rows) rest).
+    + clear -Hm. induction Hm as [|q l Hq _ IH]; cbn [map]; constructor; [apply mqs_read; exact Hq|exact IH].
+    + rewrite mkeys_pr. exact Hmn.
+    + rewrite mkeys_pr. exact Hmv.
+    + split; [destruct cs; [contradiction|discriminate]|]. split; [|split; [rewrite NR; exact Hcn|]].
+      * clear -Hc. induction Hc as [|c l [Hk [Hq _]] _ IH]; cbn [map]; constructor; [|exact IH].
+        split; [exact Hk|]. unfold colr. cbn [snd]. clear -Hq. induction Hq as [|q l Hq _ IH]; cbn [map]; constructor; [apply mqs_read; exact Hq|exact IH].
+      * clear -Hc. induction Hc as [|c l [_ [_ Hnd]] _ IH]; cbn [map]; constructor; [|exact IH]. unfold colr. cbn [snd]. rewrite mkeys_pr. exact Hnd.
+    + rewrite NR. clear -Hrows. induction Hrows as [|cells rows [Hl Hcs] _ IH]; cbn [map]; constructor; [|exact IH]. split; [rewrite !map_length; exact Hl|].
+      clear -Hcs. induction Hcs as [|x l Hx _ IH]; cbn [map]; constructor; [apply readsd_reads; exact (proj2 Hx k)|exact IH].
+Qed.
+
 Theorem wrv_sem : forall n w r t, wrv n w r t -> wr_sem (2 * n) w r t.
 Proof.
   induction n as [|n IH]; intros w r t H.
   - destruct H as [[E H]|H]; [subst r; exact (zv_sem 0 w t H)|apply dtt_sem; exact H].
-  - destruct H as [[E H]|[H|[[l [Ew [Er [Et H]]]]|[l [Ew [Er [Et [Hnd H]]]]]]]].
+  - destruct H as [[E H]|[H|[[l [Ew [Er [Et H]]]]|[[l [Ew [Er [Et [Hnd H]]]]]|[mq [cs [rows [Ew [Er [Et [Hm [Hmn [Hmv [Hne [Hc [Hcn Hrows]]]]]]]]]]]]]]]].
     + subst r. exact (zv_sem (S n) w t H).
     + apply dtt_sem. exact H.
     + (* list *) subst w r t. rewrite two_S. split.
@@ -87,46 +175,43 @@ Proof.
         apply (scalar_dict (S (2 * n + k)) (map pr l) rest); [|rewrite keys_pr; exact Hnd|exact Hd].
         clear -H IH. induction H as [|x l [Hk Hx] _ IH2]; cbn [map]; constructor; [|exact IH2].
         split; [exact Hk|]. cbn [pr]. pose proof (proj2 (IH _ _ _ Hx) (S k)) as R. rewrite Nat.add_succ_r in R. exact R.
+    + (* nested grid *) subst w r t. rewrite two_S.
+      assert (Ms : forall l, Forall (mq_of (wrv n)) l -> Forall (mq_of (wr_sem (2 * n))) l).
+      { intros l Hl. eapply Forall_impl; [|exact Hl]. intros q [Hk [E|Hz]]; (split; [exact Hk|]); [left; exact E|right; apply IH; exact Hz]. }
+      assert (Me : forall l, Forall (mq_of (wrv n)) l -> Forall meq l).
+      { intros l Hl. eapply Forall_impl; [|exact Hl]. intros q Hq. exact (mq_meq n q Hq). }
+      assert (G : (forall f, zdump_grid (S (S (2 * n + f))) V30 (map pkv (map pw mq)) (map (fun c => (fst c, map pkv (snd c))) (map colw cs))
+                        (map (fun cells => combine (map fst (map colw cs)) cells) (map (map w3) rows))
+                     = Ok (meta_text (map pw mq) (map colw cs) (map (map t3) rows))) /\
+                  (forall k rest, p_scalar (S (S (S (2 * n + k)))) true (60 :: 60 :: meta_text (map pw mq) (map colw cs) (map (map t3) rows) ++ 62 :: 62 :: rest)
+                     = Some (Ok (meta_grid (map pr mq) (map colr cs) (map (map r3) rows)), rest))).
+      { apply grid_two_sided_sem; [apply Ms; exact Hm|apply Me; exact Hm|exact Hmn|exact Hmv|exact Hne| | |exact Hcn|].
+        - eapply Forall_impl; [|exact Hc]. intros c [A [B C]]. split; [exact A|]. split; [apply Ms; exact B|exact C].
+        - eapply Forall_impl; [|exact Hc]. intros c [_ [B _]]. apply Me. exact B.
+        - eapply Forall_impl; [|exact Hrows]. intros cells [Hl Hcs]. split; [exact Hl|]. eapply Forall_impl; [|exact Hcs]. intros x Hx. apply IH. exact Hx. }
+      destruct G as [D R]. split.
+      * intro f. cbn [Nat.add]. remember (S (S (2 * n + f))) as f1. unfold meta_grid. cbn [zdump]. subst f1.
+        unfold meta_grid in D. rewrite (D f). reflexivity.
+      * intros k rest Hd. cbn [Nat.add List.app]. rewrite <- app_assoc. cbn [List.app]. apply R.
 Qed.
 Print Assumptions wrv_sem.
 
 (* ---------- metadata items, columns, whole grids ---------- *)
-Definition mq_ok (n : nat) (q : q4) : Prop :=
-  colname (k4 q) /\ ((w4 q = VMarker /\ r4 q = VMarker) \/ wrv n (w4 q) (r4 q) (t4 q)).
+Definition mq_ok (n : nat) (q : q4) : Prop := mq_of (wrv n) q.
 
-Lemma wrv_mtext n k w r t : wrv n w r t -> mtext (k, w, t) = mtext (k, r, t).
-Proof.
-  intro H. destruct n as [|n]; cbn [wrv] in H.
-  - destruct H as [[E _]|[y [m [d [h [mi [s [us [off [zn [sg [hh [mm [_ [_ [_ [Ew [Er _]]]]]]]]]]]]]]]]]]; subst; reflexivity.
-  - destruct H as [[E _]|[[y [m [d [h [mi [s [us [off [zn [sg [hh [mm [_ [_ [_ [Ew [Er _]]]]]]]]]]]]]]]]]|[[l [Ew [Er _]]]|[l [Ew [Er _]]]]]]; subst; reflexivity.
-Qed.
-Lemma mq_mtext n q : mq_ok n q -> mtext (pw q) = mtext (pr q).
-Proof. destruct q as [[[k w] r] t]. unfold mq_ok, pw, pr, k4, w4, r4, t4. cbn [fst snd]. intros [_ [[Ew Er]|H]]; [subst; reflexivity|exact (wrv_mtext n k w r t H)]. Qed.
 
-Lemma mmore_pw_pr n l : Forall (mq_ok n) l -> mmore (map pw l) = mmore (map pr l).
-Proof. induction 1 as [|q l Hq _ IH]; [reflexivity|]. cbn [map mmore concat]. fold (mmore (map pw l)). fold (mmore (map pr l)). rewrite IH, (mq_mtext n q Hq). reflexivity. Qed.
-Lemma mpart_pw_pr n l : Forall (mq_ok n) l -> mpart (map pw l) = mpart (map pr l).
-Proof.
-  intro H. destruct l as [|q l]; [reflexivity|]. inversion H as [|? ? Hq Hl]; subst. cbn [map mpart mbody].
-  rewrite (mq_mtext n q Hq), (mmore_pw_pr n l Hl). reflexivity.
-Qed.
 
-Definition cq := (str * list q4)%type.
-Definition colw (c : cq) : str * list (str * hval * str) := (fst c, map pw (snd c)).
-Definition colr (c : cq) : str * list (str * hval * str) := (fst c, map pr (snd c)).
-Definition cq_ok (n : nat) (c : cq) : Prop := colname (fst c) /\ Forall (mq_ok n) (snd c) /\ NoDup (map k4 (snd c)).
+Definition cq_ok (n : nat) (c : cq) : Prop := cq_of (wrv n) c.
 
-Lemma ctext_w_r n l : Forall (cq_ok n) l -> map ctext (map colw l) = map ctext (map colr l).
-Proof.
-  induction 1 as [|c l [_ [Hc _]] _ IH]; [reflexivity|]. cbn [map]. rewrite IH. unfold ctext, colw, colr. cbn [fst snd]. rewrite (mpart_pw_pr n (snd c) Hc). reflexivity.
-Qed.
 
 Lemma meta_text_w_r n mq cs rts : Forall (mq_ok n) mq -> Forall (cq_ok n) cs ->
   meta_text (map pw mq) (map colw cs) rts = meta_text (map pr mq) (map colr cs) rts.
-Proof. intros Hm Hc. unfold meta_text, htext. rewrite (mpart_pw_pr n mq Hm), (ctext_w_r n cs Hc). reflexivity. Qed.
+Proof.
+  intros Hm Hc. apply meta_text_eq.
+  - eapply Forall_impl; [|exact Hm]. intros q Hq. exact (mq_meq n q Hq).
+  - eapply Forall_impl; [|exact Hc]. intros c [_ [B _]]. eapply Forall_impl; [|exact B]. intros q Hq. exact (mq_meq n q Hq).
+Qed.
 
-Lemma mkeys_pw l : mkeys (map pw l) = map k4 l. Proof. exact (keys_pw l). Qed.
-Lemma mkeys_pr l : mkeys (map pr l) = map k4 l. Proof. exact (keys_pr l). Qed.
 
 Lemma wrv_cellwr n w r t : wrv n w r t -> cellwr n (w, r) t.
 Proof. intro H. destruct (wrv_sem n w r t H) as [D R]. split; [exact D|]. intro k. apply readsd_reads. apply R. Qed.
